@@ -46,6 +46,11 @@ checks = {
   level=dict(category="exploration", design_ref="DESIGN.md §4.3",
     text="seeded search over operation histories (5-6000 ops) x key/elem type catalogue x RNG-seam values x iterator interleavings against a trivial reference map; lookups, len, iteration completeness/no-duplicate/no-deleted, nil-map and unhashable-key panics, bounded progress of every operation"),
   note="weakest fit of the claimed properties (no faults, single thread): what is simulated is the randomness the code draws and the interleaving of range loops with mutations. Scope: run-time library + descriptor computation (ssa/abi); the assembly of descriptors into LLVM constants (ssa/abitype.go) is re-implemented in the harness and the LLVM lowering of map operations is not exercised. One unrepaired inherited defect (C06-K1) is matched structurally."),
+"C13": dict(
+  technique="deterministic simulation with fault injection at process level: the real llgo binary (rebuilt from the working tree, cache code behind a counting fault seam supplied by go build -overlay) driven through generated histories of edits / rebuilds / cache clears / builds killed or failed at cache operation k (optionally with a torn write), with file mtimes stamped from a simulated clock (normal, stalled, backwards, coarse); oracle = a reference model of what the generated multi-package program must print",
+  level=dict(category="exploration", design_ref="DESIGN.md §4.5",
+    text="seeded search over edit/rebuild/crash histories x clock-fault modes on generated 2-6 package modules (Go source same/different size, LLGoFiles C files, embedded files, build tags, ABI mode, transitive dependencies); after every successful build the program's output must equal the model's, also after crashes and disk errors at arbitrary cache operations; roughly 700 histories per hour, so a clean batch is thin evidence"),
+  note="claims the never-stale and crash-consistency clauses; byte-reproducibility of IR is NOT decided (the compiler's nondeterminism source, Go map iteration, cannot be put behind a seam); -X overrides have no command-line path at this commit; optimisation level / env variables do not change println output and are not observable by this oracle. LLVM 14 + stub libunwind/libuv instead of LLVM 19; embed worlds only in the thorough tier (cold std build takes minutes)."),
 }
 for k in list(pending):
     if k in checks: del pending[k]
